@@ -214,6 +214,39 @@ fn main() {
             let mut w = b"*2\r\n".to_vec(); w.extend_from_slice(f); w.extend_from_slice(f); inputs.push(w);
             inputs.push(f[..f.len() - 1].to_vec());
         }
+        // UTF-8 multi-byte characters meet byte arithmetic: inline lines over units
+        // { " \ space a n é(2 bytes) €(3) 😀(4) } exhaustively (every string of up to 5 units: quoted and
+        // unquoted tokens, every escape `\x` with x ASCII / 2- / 3- / 4-byte, multi-byte characters next to quotes
+        // and at the line end), plus lone lead / continuation bytes up to 4 units; each as a complete line,
+        // and the longer ones also torn inside their last character (no CRLF yet)
+        {
+            let units: Vec<&[u8]> = vec![b"\"", b"\\", b" ", b"a", b"n", "\u{e9}".as_bytes(), "\u{20ac}".as_bytes(), "\u{1f600}".as_bytes(), b"\xc3", b"\xa9"];
+            let mut n_u = 0u64;
+            for (nunits, maxlen) in [(8usize, 5usize), (10, if args.thorough() { 5 } else { 4 })] {
+                for len in 1..=maxlen {
+                    let total = nunits.pow(len as u32);
+                    for mut x in 0..total {
+                        let mut line: Vec<u8> = vec![];
+                        let mut uses_extra = false;
+                        for _ in 0..len { let u = x % nunits; if u >= 8 { uses_extra = true; } line.extend_from_slice(units[u]); x /= nunits; }
+                        if nunits == 10 && !uses_extra { continue; }   // already produced by the 8-unit pass
+                        if len == maxlen && line.len() > len { let mut t = line.clone(); t.pop(); inputs.push(t); n_u += 1; }
+                        line.extend_from_slice(b"\r\n");
+                        inputs.push(line); n_u += 1;
+                    }
+                }
+            }
+            rep.count_n("utf8_inline_inputs", n_u);
+            // the same characters as content of simple strings, errors, bulk strings (length in bytes vs chars), inside arrays
+            for ch in ["\u{e9}", "\u{20ac}", "\u{1f600}", "a\u{e9}", "\u{e9}\"", "\\\u{e9}"] {
+                let b = ch.as_bytes();
+                for f in [format!("+{}\r\n", ch), format!("-{}\r\n", ch), format!("${}\r\n{}\r\n", b.len(), ch), format!("${}\r\n{}\r\n", ch.chars().count(), ch),
+                          format!("*2\r\n+{}\r\n\"\\{}\"\r\n", ch, ch), format!(":{}\r\n", ch), format!("SET k \"caf\\{}\"\r\n", ch), format!("SET k caf\\{} x\r\n", ch)] {
+                    inputs.push(f.clone().into_bytes());
+                    let mut t = f.into_bytes(); t.truncate(t.len() - 3); inputs.push(t.clone()); t.extend_from_slice(b"\r\n"); inputs.push(t);
+                }
+            }
+        }
         // nesting
         let depths: Vec<usize> = if args.thorough() { vec![9, 100, 127, 128, 129, 130, 1000, 5000, 20000, 100000, 200000] } else { vec![9, 100, 127, 128, 129, 130, 1000, 20000] };
         for d in depths {
@@ -318,7 +351,9 @@ fn main() {
             if m.len() > 300 { &m[..300] } else { m }, sp);
         if sp != "ok" {
             let sig = if o.class == 'P' || o.class == 'A' {
-                let shape = if nest_depth(inp) > 128 { "deep-nesting" } else { bad.unwrap_or("other-input") };
+                let shape = if nest_depth(inp) > 128 { "deep-nesting" } else if let Some(b) = bad { b }
+                    else if inp.iter().any(|c| *c >= 0x80) && !inp.first().map_or(false, |c| b"+-:$*_".contains(c)) { "inline-non-ascii" }
+                    else if inp.iter().any(|c| *c >= 0x80) { "non-ascii" } else { "other-input" };
                 format!("{}:{}", if o.class == 'P' { "panic" } else { "process-died" }, shape)
             } else { "alloc-bound".to_string() };
             rep.count(&format!("spec_violation:{}", sig));
